@@ -4,7 +4,7 @@
 From Coq Require Import Lia.
 From WV Require Import Model.Base Generated.Consts Model.Bits Model.Leb128 Model.WaveMem Model.VcdBody
   Spec.TimeSpec Spec.StoreSpec Proofs.BitsProofs Proofs.StoreProofs Proofs.EncoderProofs Proofs.VcdStreamProofs
-  Proofs.RealStringProofs Proofs.RealStringEnc.
+  Proofs.RealStringProofs Proofs.RealStringEnc Proofs.BodyProofs Proofs.TokenProofs.
 Open Scope N_scope.
 
 Section StreamRS.
@@ -40,3 +40,39 @@ Proof.
 Qed.
 
 End StreamRS.
+
+(* ------------------------------------------------------------------ from the text to the report *)
+
+Section Lines.
+Variable parse_f64 : list byte -> option (list byte).
+Variable lz_compress : list byte -> list byte.
+Variable lz_decompress : list byte -> nat -> option (list byte).
+Hypothesis lz_ok : forall d n, (length d <= n)%nat -> lz_decompress (lz_compress d) n = Some d.
+Variable cap : N.
+Hypothesis cap_pos : 1 <= cap.
+Hypothesis cap_u16 : cap <= 65536.
+
+(* Property C01 from the text: a VCD body written one token group per line (Proofs/TokenProofs.v `render`) and loaded by
+   the single-threaded path reports, for a bit-vector variable, exactly what its lines record: the value changes written
+   under the variable's identifier code, at the index of the time stamp line they follow, least kind, characters,
+   equal neighbours once; comment lines and $dumpvars/$end/$dumpoff/$dumpon lines contribute nothing *)
+Theorem vcd_lines_transparent debug tpes lookup (ls : list line) stop e blocks ttb id bits :
+  Forall line_ok ls -> N.of_nat (length (render ls)) <= stop + 1 ->
+  (1 <= bits)%nat -> nth_error tpes id = Some (EncBits bits) ->
+  read_single_stream parse_f64 lz_compress cap debug tpes lookup (render ls) stop true = Ok e ->
+  enc_finish lz_compress e = Ok (blocks, ttb) -> N.of_nat (length ttb) < 4294967296 ->
+  exists ops, ops_of lookup true false (flat_map events_of ls) = Some ops /\
+    (N.of_nat (count_vcd id ops) * (10 + N.of_nat bits) < 4294967264 ->
+     exists R sig,
+       Forall2 (decodes bits) R (recorded id ops [] false) /\
+       load_signal lz_decompress blocks id (EncBits bits) = Ok sig /\
+       observe_signal sig = outcome_map render_of (dedup R)).
+Proof.
+  intros Hok Hstop Hb Htp Hrs Hfin Hlen.
+  destruct (vcd_stream_transparent parse_f64 lz_compress lz_decompress lz_ok cap cap_pos cap_u16 debug tpes lookup
+              (render ls) stop e blocks ttb id bits Hb Htp Hrs Hfin Hlen) as (ops & Ho & Hrest).
+  rewrite (parse_body_lines debug ls stop Hok Hstop) in Ho. cbn [fst] in Ho.
+  exists ops. split; [exact Ho|exact Hrest].
+Qed.
+
+End Lines.
